@@ -47,6 +47,37 @@ MUTANTS = [
     dict(name="c02-remove-in-read_buf", prop="C02", expect="C02.R1:circular_buffer::Buffer::read_buf",
          edits=[E("src/circular_buffer.rs", "        let s = self.state.0.lock().unwrap();\n        let (start, end) = s.read_range();\n        let mut tags",
                   "        let mut s = self.state.0.lock().unwrap();\n        let (start, end) = s.read_range();\n        s.tags.remove(&usize::MAX);\n        let mut tags")]),
+    # ---------------- C03
+    dict(name="c03-readstream-clone", prop="C03", expect="witness:w_c03_r4_readstream_not_clone",
+         edits=[E("src/stream.rs", "#[derive(Debug)]\npub struct ReadStream<T> {", "#[derive(Debug, Clone)]\npub struct ReadStream<T> {")]),
+    dict(name="c03-pub-slice-mut", prop="C03", expect="witness:w_c03_r4_buffer_slice_mut_private",
+         edits=[E("src/circular_buffer.rs", "    pub(crate) fn slice_mut(&self", "    pub fn slice_mut(&self")]),
+    dict(name="c03-new-raw-accessor", prop="C03", expect="C03.R1:",
+         edits=[E("src/circular_buffer.rs", "    pub(crate) fn slice(&self, start: usize, end: usize) -> &[T] {", "    /// Whole ring.\n    pub fn raw(&self) -> &mut [T] {\n        self.circ.full_buffer::<T>(0, self.total_size())\n    }\n\n    pub(crate) fn slice(&self, start: usize, end: usize) -> &[T] {")]),
+    dict(name="c03-drop-refcount-ceiling", prop="C03", expect="C03.R7:stream::WriteStream::write_buf",
+         edits=[E("src/stream.rs", """        if refcount > 3 {
+            return Err(Error::msg(format!(
+                "write_buf() called with refcount {refcount}"
+            )));
+        }
+""", "")]),
+    dict(name="c03-range-outside-lock", prop="C03", expect="C03.R2:circular_buffer::Buffer::write_buf",
+         edits=[E("src/circular_buffer.rs", """        let s = self.state.0.lock().unwrap();
+        let (start, end) = s.write_range();
+        drop(s);""", """        let start = self.state.0.lock().unwrap().write_range().0;
+        let end = self.state.0.lock().unwrap().write_range().1;""")]),
+    dict(name="c03-consume-pub", prop="C03", expect="witness:w_c03_r4_buffer_consume_private",
+         edits=[E("src/circular_buffer.rs", "    pub(in crate::circular_buffer) fn consume(&self, n: usize) {", "    pub fn consume(&self, n: usize) {")]),
+    dict(name="c03-lock-order-cycle", prop="C03", expect="C03.R6:",
+         edits=[E("src/vector_sink.rs", """impl<T: Copy> VectorSink<T> {
+    /// Get a Hook into the data that will be written.""", """impl<T: Copy> VectorSink<T> {
+    /// Peek (mutant: takes the stream lock first, then storage).
+    pub fn peek_len(&self) -> usize {
+        let (i, _) = self.src.read_buf().unwrap();
+        let n = self.storage.lock().unwrap().0.len();
+        n + i.len()
+    }
+    /// Get a Hook into the data that will be written.""")]),
     # ---------------- C04
     dict(name="c04-swap-reads-in-eof", prop="C04", expect="C04.R1:stream::ReadStream::eof",
          edits=[E("src/stream.rs", """        let refcount = Arc::strong_count(&self.circ);
